@@ -50,6 +50,12 @@ def props_of(rep, rec=None):
                     "get_block_headers": {"C07", "C02"}, "get_current_fee_percentiles": {"C15", "C02"}}.get(ep, set())
             if rep.get("paused"):
                 out.add("C08")
+    elif tag.startswith("metrics."):
+        # the metrics endpoint (http_request): C14 "get_config, get_blockchain_info and the metrics endpoint answer
+        # regardless"; the counters and gauges that listed properties name as observables count for them; the rest
+        # of the endpoint is modelled for coverage and reported without a property
+        out |= METRIC_PROPS.get(tag, set())
+        return out
     elif tag.startswith("cycles."):
         out |= {"C16"}
     elif tag.startswith("sendtx."):
@@ -114,6 +120,16 @@ def props_of(rep, rec=None):
         out.add("C09")
     return out
 
+
+METRIC_PROPS = {
+    "metrics.answer": {"C14"}, "metrics.status": {"C14"}, "metrics.notFound": {"C14"}, "metrics.wellformed": {"C14"},
+    "metrics.contentLength": {"C14"}, "metrics.isSynced": {"C14"}, "metrics.apiAccess": {"C14"},
+    "metrics.mainChainHeight": {"C02"}, "metrics.stableHeight": {"C03"},
+    "metrics.rejects": {"C10", "C13"}, "metrics.deserializeErrors": {"C10"}, "metrics.insertErrors": {"C10"},
+    "metrics.requests": {"C13"}, "metrics.responses": {"C13"},
+    "metrics.sendTransactionCount": {"C19"},
+    "metrics.numTips": {"C20"}, "metrics.unstableTotal": {"C20", "C10"}, "metrics.depth": {"C20"},
+}
 
 # known-finding names -> the property they are recorded under
 KF_PROPERTY = {
